@@ -68,7 +68,26 @@ def square_tables(EV, CSZ, PLEN, SC_OK, SC_OK_FIRST, scale_ok):
             "encrypted1.polys_mut(0, $dest).copy_from_slice(&$x)": "d1[0 * %s..$dest * %s].copy_from_slice(&$x);" % (PLEN, PLEN),
             "encrypted1.set_correction_factor(util::multiply_u64_mod(encrypted1.correction_factor(), encrypted2.correction_factor(), %s.parms().plain_modulus()))" % CTXM:
                 "cf1 = util::multiply_u64_mod(cf1, cf2, t);"}}
+    # `ckks_multiply`: the same data loops, the result copied over the whole (resized) buffer, then the scale bookkeeping of `SK_CKKS_MUL`
+    sk_ckks_mul = {
+        "sig": "fn ckks_multiply(d1: &mut Vec<u64>, size1_in: usize, d2: &[u64], size2: usize, ntt1: bool, ntt2: bool, moduli: &[Modulus], n: usize, "
+               "ok_own: bool, ok_prod: bool, ok_own_first: bool, ok_prod_first: bool) -> (usize, usize)",
+        "prologue": "let mut size1 = size1_in; let mut sc: usize = 0;", "epilogue": "(size1, sc)",
+        "handles": [CTXM, CTXM + ".parms()"],
+        "exprs": {"encrypted1.is_ntt_form()": "ntt1", "encrypted2.is_ntt_form()": "ntt2", CTXM + ".parms().poly_modulus_degree()": "n",
+                  CTXM + ".parms().coeff_modulus()": "moduli", "encrypted1.size()": "size1", "encrypted2.size()": "size2",
+                  "encrypted1.data()": "d1", "encrypted2.data()": "d2",
+                  scale_ok("encrypted1", CTXM): SC_OK, scale_ok("encrypted1", FIRSTCD): SC_OK_FIRST},
+        "effects": {
+            "encrypted1.resize(&self.context, %s.parms_id(), $dest)" % CTXM:
+                "assert!(!(($dest < HE_CIPHERTEXT_SIZE_MIN && $dest != 0) || $dest > HE_CIPHERTEXT_SIZE_MAX)); "
+                "d1.resize($dest * n * moduli.len(), 0); size1 = $dest;",
+            "encrypted1.data_mut().copy_from_slice(&$x)": "d1[0..d1.len()].copy_from_slice(&$x);",
+            "encrypted1.set_scale(encrypted1.scale() * encrypted2.scale())": "sc = sc + 1;"},
+        "optional": [scale_ok("encrypted1", CTXM), scale_ok("encrypted1", FIRSTCD)]}
     return [
+        {"file": EV, "fn": "ckks_multiply", "impl": "Evaluator", "lean": "ct_ckks_multiply", "register_as": "ckks_multiply_ct", "model": "ctMultiplyDyadic + ckksProductBookkeeping",
+         "skeleton": sk_ckks_mul, "consts": CSZ, "panic_escape": True},
         {"file": EV, "fn": "bgv_multiply", "impl": "Evaluator", "lean": "ct_bgv_multiply", "register_as": "bgv_multiply_ct", "model": "bgvMultiply (Model/Evaluator.lean)",
          "skeleton": sk_bgv_mul, "consts": CSZ, "panic_escape": True},
         {"file": EV, "fn": "bgv_square", "impl": "Evaluator", "lean": "ct_bgv_square", "register_as": "bgv_square_ct", "model": "bgvSquare (Model/Evaluator.lean)",
